@@ -214,6 +214,10 @@ var fixedPatterns = []string{
 	`[^]`, `^[^]$`, `[]`, `a[]`, `[^]{2}`, `a|[]`, `[^]*z`,
 	`^.$`, `^..$`, `^\s$`, `^\S$`, `^\w+$`, `^\W$`, `^\d$`, `\bé\b`, `\Bé\B`, `^[^\s]+$`, `^\s*$`, `^[\w.-]+$`, `^\S+$`,
 	`\uD83D\uDE00`, `^\uD83D\uDE00$`, `[\uD83D\uDE00]`, `\u{1F600}`, `^[\u{1F600}]$`, `\u{41}`, `\u{00000041}`, `\u{10FFFF}`,
+	// surrogate-pair escapes in every kind of plane (first and last code point; plane 2 = bit 16 of the high half)
+	`^\uD800\uDC00$`, `^\uD83F\uDFFF$`, `^\uD840\uDC00$`, `^\uD842\uDFB7$`, `[\uD842\uDFB7]`, `^\uD87F\uDFFF$`, `^\uD880\uDC00$`, `^\uD8C0\uDC00$`,
+	`^\uDB40\uDC01$`, `^\uDB80\uDC00$`, `^\uDBC0\uDC00$`, `^\uDBFF\uDFFF$`, `^[\uD840\uDC00-\uD87F\uDFFF]$`, `^[\uD83F\uDFFE-\uD840\uDC01]+$`, `^[^\uDBFF\uDFFF]$`,
+	`^\u{20BB7}$`, `^[\u{2FFFF}-\u{30000}]$`, `^\u{E0001}\u{100000}$`,
 	`[\u{10000}-\u{10FFFF}]`, `^[^\u{10000}-\u{10FFFF}]$`, `[\u0041-\u005A]`, `[\x41-\x5a]`, `[\0]`, `[\cJ]`, `[\t\n]`, `\cj`, `\cA`, `\cZ`,
 	`^\p{Lu}`, `\p{L}+`, `^\P{L}$`, `[\p{Lu}\d]`, `\p{Script=Greek}`, `\p{General_Category=Decimal_Number}`,
 	`^(?=.*\d)(?=.*[a-z]).{8,}$`, `(a)\1`, `(?<y>\d{4})-\k<y>`, `(?<!a)b`, `(?<=\$)\d+`, `(?!a)[a-z]`, `^(?:(?!ab).)*$`, `(?<n>a)`, `(a)|\1b`, `(?=(a))\1`,
